@@ -158,6 +158,53 @@ def soft_part(c):
     return ncmp
 
 
+# ---- the keyword aliases under the 3.x switch (the generated universe is written in the 4.x language)
+OLD_ALIAS_TEXTS = ["""int i; int j; clock x; chan c;
+process P() {
+    state A { x <= 5 }, B;
+    init A;
+    trans A -> B { guard i < 2 and not (j == 1 or i == 0), x >= 1; assign i := (j == 0 and i == 1) ? 1 : 0; },
+          B -> A { guard not (i == 1) or j > 0; sync c!; }, B -> B { guard !(i == 1) || (j > 0 && i < 3); sync c?; };
+}
+system P;
+""", """const N 2; int[0,3] r := 1; int k;
+process Q(int p; const q) {
+    state S, T;
+    init S;
+    trans S -> T { guard p < q or not (r == N), k >= 0 and k < 3; assign k := (p == 0 || !(r == 1)) ? 1 : 0; };
+}
+Z := Q(k, 1);
+system Z;
+"""]
+
+
+def old_alias_part(c):
+    jobs, meta = [], []
+    for ti, text in enumerate(OLD_ALIAS_TEXTS):
+        jobs.append({"id": "O%d" % ti, "entry": "xta", "text": text, "newxta": False})
+        sites = [(m.start(), m.end(), {"and": "&&", "or": "||", "not": "!"}[m.group(0)]) for m in re.finditer(r"(?<![A-Za-z0-9_])(and|or|not)(?![A-Za-z0-9_])", text)]
+        sites += [(m.start(), m.end(), {"&&": " and ", "||": " or ", "!": " not "}[m.group(0)]) for m in re.finditer(r"&&|\|\||!(?!=)", text) if text[m.end():m.end() + 1] != ";" and text[m.start() - 1:m.start()] != "c"]
+        for si, (a, b, rep) in enumerate(sites):
+            jobs.append({"id": "O%d_%d" % (ti, si), "entry": "xta", "text": text[:a] + rep + text[b:], "newxta": False})
+            meta.append((ti, si, text[a:b], rep.strip(), a))
+    res = vf.run_jobs(jobs, c.run_dir, variant="plain", name="oldalias")
+    n = 0
+    for ti, si, old, new, at in meta:
+        v0, v1 = verdict(res["O%d" % ti]), verdict(res["O%d_%d" % (ti, si)])
+        if ti not in old_alias_part.base_ok:
+            old_alias_part.base_ok[ti] = not v0["errors"] if isinstance(v0, dict) and "errors" in v0 else True
+        n += 1
+        d = docgen.diff(v0, v1)
+        if d:
+            c.finding("c09:alias:3.x:%s" % docgen.diff_class(d[0]), "under the 3.x switch, writing `%s` for `%s` at offset %d of a model changes the verdict at %s: %s -> %s" % (new, old, at, d[0][0], json.dumps(d[0][1])[:150], json.dumps(d[0][2])[:150]),
+                      {"family": "alias-3.x", "original_xta": OLD_ALIAS_TEXTS[ti], "site": [old, new, at], "differences": d})
+    c.cov["alias_rewrites_under_3x"] = n
+    return n
+
+
+old_alias_part.base_ok = {}
+
+
 def run(tier):
     c = vf.Check("C09", tier)
     quick = tier == "quick"
@@ -198,7 +245,7 @@ def run(tier):
         c.finding("c09:grammar:alias-twin:%s" % m["lhs"], "the production %s -> %s spells an operator at position %d and has no twin production with the other spelling and the same action: the two spellings are not interchangeable there" % (
             m["lhs"], " ".join(m["rhs"]), m["at"]), {"entry": "AliasRules", "production": m})
     # ---- the scanner: what is inside a comment, and which separator stands between two lexemes, does not matter (Lex.tla on the extracted rules; the real scanner through the hook)
-    n_scan = lexconf.run(c, quick, "C09") + soft_part(c)
+    n_scan = lexconf.run(c, quick, "C09") + soft_part(c) + old_alias_part(c)
     # ---- metamorphic replay
     models = docgen.generate(c, ["labels", "mixed"], 700 if quick else 5000, c.seed, bfs=False)
     cand = [e["m"] for e in models if faults.blocks(e["m"])]
